@@ -110,6 +110,8 @@ class Parser:
         return self.t[j] if j < len(self.t) else (None, None)
 
     def next(self):
+        if self.i >= len(self.t):
+            raise Unsupported('unexpected end of instruction: %s' % ' '.join(a[1] for a in self.t)[:200])
         x = self.t[self.i]
         self.i += 1
         return x
@@ -560,6 +562,10 @@ def parse_body(mod, f):
         # multi-line instructions: switch [...] and landingpad clauses
         if s.startswith('switch '):
             while ']' not in s:
+                s += ' ' + lines[i].strip()
+                i += 1
+        if re.search(r'(^|= )invoke ', s):
+            while ' unwind label ' not in s and i < n:
                 s += ' ' + lines[i].strip()
                 i += 1
         if 'landingpad' in s:
